@@ -1,88 +1,145 @@
-(* bcmp (Go bytes.Compare, the RocksDB bytewise comparator) is a total order.
-   klt a b : a < b,  kle a b : not (b < a). *)
-From DnsV Require Import Base.Bytes.
+(* The bytewise order (bytes.Compare, RocksDB's comparator) and SeekForPrev. *)
+From DnsV Require Import Base.Bytes Base.Ip Model.Rearranger Model.Location.
+From Coq Require Import Lia ZifyN ZifyBool.
 Open Scope N_scope.
 
-Definition klt (a b : bytes) : Prop := bltb a b = true.
-Definition kle (a b : bytes) : Prop := bltb b a = false.
-
 Lemma bcmp_refl : forall a, bcmp a a = Eq.
-Proof. induction a; simpl; [reflexivity|]. rewrite N.compare_refl. assumption. Qed.
+Proof. induction a as [|x a IH]; simpl; auto. rewrite N.compare_refl. exact IH. Qed.
 
 Lemma bcmp_eq : forall a b, bcmp a b = Eq -> a = b.
 Proof.
-  induction a as [|x a IH]; destruct b as [|y b]; simpl; intro H; try reflexivity; try discriminate.
-  destruct (x ?= y) eqn:E; try discriminate. apply N.compare_eq_iff in E. subst. f_equal. auto.
+  induction a as [|x a IH]; destruct b as [|y b]; simpl; intro H; try discriminate; auto.
+  destruct (x ?= y) eqn:E; try discriminate. apply N.compare_eq in E. subst. f_equal. auto.
 Qed.
 
 Lemma bcmp_antisym : forall a b, bcmp b a = CompOpp (bcmp a b).
 Proof.
-  induction a as [|x a IH]; destruct b as [|y b]; simpl; try reflexivity.
+  induction a as [|x a IH]; destruct b as [|y b]; simpl; auto.
   rewrite (N.compare_antisym x y). destruct (x ?= y); simpl; auto.
 Qed.
 
 Lemma bcmp_lt_trans : forall a b c, bcmp a b = Lt -> bcmp b c = Lt -> bcmp a c = Lt.
 Proof.
-  induction a as [|x a IH]; intros [|y b] [|z c]; simpl; try discriminate; try reflexivity.
-  destruct (x ?= y) eqn:E1, (y ?= z) eqn:E2; try discriminate; intros H1 H2.
-  - apply N.compare_eq_iff in E1. apply N.compare_eq_iff in E2. subst. rewrite N.compare_refl. eauto.
-  - apply N.compare_eq_iff in E1. subst. rewrite E2. reflexivity.
-  - apply N.compare_eq_iff in E2. subst. rewrite E1. reflexivity.
-  - rewrite (N.lt_trans _ _ _ E1 E2). reflexivity.
+  induction a as [|x a IH]; destruct b as [|y b]; destruct c as [|z c]; simpl; intros H1 H2; try discriminate; auto.
+  destruct (x ?= y) eqn:E1; destruct (y ?= z) eqn:E2; try discriminate.
+  - apply N.compare_eq in E1, E2. subst. rewrite N.compare_refl. eauto.
+  - apply N.compare_eq in E1. subst. rewrite E2. reflexivity.
+  - apply N.compare_eq in E2. subst. rewrite E1. reflexivity.
+  - rewrite N.compare_lt_iff in E1, E2.
+    assert (H : (x ?= z) = Lt) by (rewrite N.compare_lt_iff; lia). rewrite H. reflexivity.
 Qed.
 
-Lemma klt_iff : forall a b, klt a b <-> bcmp a b = Lt.
-Proof. intros. unfold klt, bltb. destruct (bcmp a b); split; congruence. Qed.
+Lemma bleb_iff : forall a b, bleb a b = true <-> bcmp a b <> Gt.
+Proof. intros a b. unfold bleb. destruct (bcmp a b); split; intro H; auto; try discriminate; congruence. Qed.
 
-Lemma kle_iff : forall a b, kle a b <-> bcmp a b <> Gt.
+Lemma bltb_iff : forall a b, bltb a b = true <-> bcmp a b = Lt.
+Proof. intros a b. unfold bltb. destruct (bcmp a b); split; intro H; auto; discriminate. Qed.
+
+Lemma bleb_refl : forall a, bleb a a = true.
+Proof. intro a. apply bleb_iff. rewrite bcmp_refl. discriminate. Qed.
+
+Lemma bleb_cases : forall a b, bleb a b = true <-> (a = b \/ bltb a b = true).
 Proof.
-  intros. unfold kle, bltb. rewrite (bcmp_antisym a b). destruct (bcmp a b); simpl; split; congruence.
+  intros a b. unfold bleb, bltb. destruct (bcmp a b) eqn:E.
+  - split; intro H; [left; apply bcmp_eq; exact E|reflexivity].
+  - split; intro H; [right; reflexivity|reflexivity].
+  - split; intro H; [discriminate H|].
+    destruct H as [H|H]; [|discriminate H]. subst. rewrite bcmp_refl in E. discriminate E.
 Qed.
 
-Lemma klt_trans : forall a b c, klt a b -> klt b c -> klt a c.
-Proof. intros a b c. rewrite !klt_iff. apply bcmp_lt_trans. Qed.
+Lemma bltb_trans : forall a b c, bltb a b = true -> bltb b c = true -> bltb a c = true.
+Proof. intros a b c. rewrite !bltb_iff. apply bcmp_lt_trans. Qed.
 
-Lemma klt_irrefl : forall a, ~ klt a a.
-Proof. intros a H. apply klt_iff in H. rewrite bcmp_refl in H. discriminate. Qed.
-
-Lemma klt_neq : forall a b, klt a b -> a <> b.
-Proof. intros a b H E. subst. exact (klt_irrefl b H). Qed.
-
-Lemma kle_refl : forall a, kle a a.
-Proof. intro. apply kle_iff. rewrite bcmp_refl. discriminate. Qed.
-
-Lemma klt_kle : forall a b, klt a b -> kle a b.
-Proof. intros a b H. apply klt_iff in H. apply kle_iff. congruence. Qed.
-
-Lemma kle_neq_klt : forall a b, kle a b -> a <> b -> klt a b.
+Lemma bleb_trans : forall a b c, bleb a b = true -> bleb b c = true -> bleb a c = true.
 Proof.
-  intros a b H N. apply kle_iff in H. apply klt_iff.
-  destruct (bcmp a b) eqn:E; [apply bcmp_eq in E; contradiction | reflexivity | congruence].
+  intros a b c H1 H2. apply bleb_cases in H1. apply bleb_cases in H2. apply bleb_cases.
+  destruct H1 as [->|H1]; destruct H2 as [->|H2]; auto. right. exact (bltb_trans _ _ _ H1 H2).
 Qed.
 
-Lemma kle_antisym : forall a b, kle a b -> kle b a -> a = b.
+Lemma bltb_not_leb : forall a b, bltb a b = true -> bleb b a = false.
 Proof.
-  intros a b H1 H2. apply kle_iff in H1. apply kle_iff in H2. rewrite (bcmp_antisym a b) in H2.
-  destruct (bcmp a b) eqn:E; simpl in *; [apply bcmp_eq; assumption | congruence | congruence].
+  intros a b H. apply bltb_iff in H. unfold bleb. rewrite (bcmp_antisym a b), H. reflexivity.
 Qed.
 
-Lemma kle_trans : forall a b c, kle a b -> kle b c -> kle a c.
+Lemma bleb_total : forall a b, bleb a b = true \/ bltb b a = true.
 Proof.
-  intros a b c H1 H2. apply kle_iff in H1. apply kle_iff in H2. apply kle_iff.
-  destruct (bcmp a b) eqn:E1; [apply bcmp_eq in E1; subst; assumption | | congruence].
-  destruct (bcmp b c) eqn:E2; [apply bcmp_eq in E2; subst; congruence | | congruence].
-  rewrite (bcmp_lt_trans _ _ _ E1 E2). discriminate.
+  intros a b. unfold bleb, bltb. rewrite (bcmp_antisym a b). destruct (bcmp a b); simpl; auto.
 Qed.
 
-Lemma klt_kle_trans : forall a b c, klt a b -> kle b c -> klt a c.
+Lemma bleb_antisym : forall a b, bleb a b = true -> bleb b a = true -> a = b.
 Proof.
-  intros a b c H1 H2. apply kle_neq_klt.
-  - eapply kle_trans; [apply klt_kle; eassumption | assumption].
-  - intro E. subst a.
-    assert (X : c = b) by (apply kle_antisym; [apply klt_kle; assumption | assumption]).
-    subst c. exact (klt_irrefl b H1).
+  intros a b H1 H2. apply bleb_cases in H1. destruct H1 as [|H1]; auto.
+  rewrite (bltb_not_leb _ _ H1) in H2. discriminate.
 Qed.
 
-(* bltb decides the order: not a < b means b <= a *)
-Lemma bltb_false_kle : forall a b, bltb a b = false -> kle b a.
-Proof. intros. exact H. Qed.
+Lemma bcmp_app : forall p x y, bcmp (p ++ x) (p ++ y) = bcmp x y.
+Proof. induction p as [|c p IH]; intros; simpl; auto. rewrite N.compare_refl. apply IH. Qed.
+
+(* SeekForPrev *)
+Lemma seek_prev_aux_spec : forall db k best,
+  (match best with Some (kb, _) => bleb kb k = true | None => True end) ->
+  match seek_prev_aux best db k with
+  | Some (k', v) => (In (k', v) db \/ best = Some (k', v)) /\ bleb k' k = true /\
+                    (forall k'' v'', In (k'', v'') db -> bleb k'' k = true -> bleb k'' k' = true) /\
+                    (match best with Some (kb, _) => bleb kb k' = true | None => True end)
+  | None => best = None /\ forall k'' v'', In (k'', v'') db -> bleb k'' k = false
+  end.
+Proof.
+  induction db as [|[k1 v1] db IH]; intros k best Hb.
+  - cbn [seek_prev_aux]. destruct best as [[kb vb]|].
+    + split; [right; reflexivity|]. split; [exact Hb|]. split; [intros ? ? []|apply bleb_refl].
+    + split; [reflexivity|]. intros ? ? [].
+  - cbn [seek_prev_aux]. destruct (bleb k1 k) eqn:E1.
+    + assert (Step : forall nb vb, bleb nb k = true ->
+                (match best with Some (kb, _) => bleb kb nb = true | None => True end) -> bleb k1 nb = true ->
+                (nb = k1 /\ vb = v1 \/ best = Some (nb, vb)) ->
+                match seek_prev_aux (Some (nb, vb)) db k with
+                | Some (k', v) => (In (k', v) ((k1, v1) :: db) \/ best = Some (k', v)) /\ bleb k' k = true /\
+                                  (forall k'' v'', In (k'', v'') ((k1, v1) :: db) -> bleb k'' k = true -> bleb k'' k' = true) /\
+                                  (match best with Some (kb, _) => bleb kb k' = true | None => True end)
+                | None => False
+                end).
+      { intros nb vb Hnb Hbn H1n Hor. specialize (IH k (Some (nb, vb)) Hnb).
+        destruct (seek_prev_aux (Some (nb, vb)) db k) as [[k' v]|]; [|destruct IH as [C _]; discriminate C].
+        destruct IH as [I1 [I2 [I3 I4]]]. split.
+        { destruct I1 as [I1|I1]; [left; right; exact I1|]. inversion I1; subst.
+          destruct Hor as [[-> ->]|Hor]; [left; left; reflexivity|right; exact Hor]. }
+        split; [exact I2|]. split.
+        { intros k'' v'' [Hin|Hin] Hk; [|exact (I3 k'' v'' Hin Hk)].
+          inversion Hin; subst. exact (bleb_trans _ _ _ H1n I4). }
+        destruct best as [[kb vb']|]; [|exact I]. exact (bleb_trans _ _ _ Hbn I4). }
+      destruct best as [[kb vb]|].
+      * destruct (bltb kb k1) eqn:E2.
+        -- assert (Hb1 : bleb kb k1 = true) by (apply bleb_cases; auto).
+           pose proof (Step k1 v1 E1 Hb1 (bleb_refl k1) (or_introl (conj eq_refl eq_refl))) as S.
+           destruct (seek_prev_aux (Some (k1, v1)) db k) as [[k' v]|]; [exact S|contradiction].
+        -- assert (H1b : bleb k1 kb = true).
+           { destruct (bleb_total k1 kb) as [X|X]; auto. congruence. }
+           pose proof (Step kb vb Hb (bleb_refl kb) H1b (or_intror eq_refl)) as S.
+           destruct (seek_prev_aux (Some (kb, vb)) db k) as [[k' v]|]; [exact S|contradiction].
+      * pose proof (Step k1 v1 E1 I (bleb_refl k1) (or_introl (conj eq_refl eq_refl))) as S.
+        destruct (seek_prev_aux (Some (k1, v1)) db k) as [[k' v]|]; [|contradiction].
+        destruct S as [S1 [S2 [S3 S4]]]. split; [|split; [exact S2|split; [exact S3|exact I]]].
+        destruct S1 as [S1|S1]; [left; exact S1|discriminate S1].
+    + specialize (IH k best Hb). destruct (seek_prev_aux best db k) as [[k' v]|].
+      * destruct IH as [I1 [I2 [I3 I4]]]. split.
+        { destruct I1 as [I1|I1]; [left; right; exact I1|right; exact I1]. }
+        split; [exact I2|]. split; [|exact I4].
+        intros k'' v'' [Hin|Hin] Hk; [|exact (I3 k'' v'' Hin Hk)]. inversion Hin; subst. congruence.
+      * destruct IH as [I1 I2]. split; [exact I1|]. intros k'' v'' [Hin|Hin]; [|exact (I2 k'' v'' Hin)].
+        inversion Hin; subst. exact E1.
+Qed.
+
+Lemma seek_prev_spec : forall db k,
+  match seek_prev db k with
+  | Some (k', v) => In (k', v) db /\ bleb k' k = true /\
+                    (forall k'' v'', In (k'', v'') db -> bleb k'' k = true -> bleb k'' k' = true)
+  | None => forall k'' v'', In (k'', v'') db -> bleb k'' k = false
+  end.
+Proof.
+  intros db k. unfold seek_prev. pose proof (seek_prev_aux_spec db k None I) as S.
+  change (@None (bytes * bytes)) with (@None kv) in S.
+  revert S. destruct (seek_prev_aux None db k) as [[k' v]|]; intro S.
+  - destruct S as [[S1|S1] [S2 [S3 _]]]; [|discriminate S1]. auto.
+  - destruct S as [_ S]. exact S.
+Qed.
